@@ -116,6 +116,85 @@ class RunLoopClient:
         return frozenset(set(state) | {api})
 
 
+def check_trash_loops(prog: Program, rep: Report, rule: str) -> int:
+    """
+    Every event handler that the activator lists as trashable is trashed in the scheduler: on every path through the body of the
+    loop over `get_trashable_events(..)` that ends normally (also by `continue` / `break`, or `return` in a helper that is the body)
+    `<scheduler>.trash_event(<handler>)` is called.  A path that skips it leaves a candidate in the scheduler that the activator
+    already filed as not running: it is later committed although its trajectory has changed.
+    """
+    from .normalize import canon
+    n = 0
+    for cls in mediator_classes(prog):
+        r = prog.resolve_method(cls, "run")
+        if r is None:
+            continue
+        run = canon(prog, cls, r[1])
+        R = Resolver(run)
+        for lp in [x for x in ast.walk(run) if isinstance(x, ast.For)]:
+            it = R.res(lp.iter) if isinstance(lp.iter, ast.Name) else lp.iter
+            if "get_trashable_events" not in norm(it) or not isinstance(lp.target, ast.Name):
+                continue
+            var = lp.target.id
+            body = lp.body
+            # the body moved into a helper: `self._h(var)` as the only statement
+            if len(body) == 1 and isinstance(body[0], ast.Expr) and isinstance(body[0].value, ast.Call) and isinstance(body[0].value.func, ast.Attribute) \
+                    and isinstance(body[0].value.func.value, ast.Name) and body[0].value.func.value.id == "self" \
+                    and len(body[0].value.args) == 1 and norm(body[0].value.args[0]) == var and body[0].value.func.attr != "trash_event":
+                hr = prog.resolve_method(cls, body[0].value.func.attr)
+                if hr is not None:
+                    h = canon(prog, cls, hr[1])
+                    ps = [a.arg for a in h.args.args if a.arg != "self"]
+                    if len(ps) == 1:
+                        var, body = ps[0], body_without_docstring(h)
+
+            def trashes(st: ast.stmt) -> bool:
+                return isinstance(st, ast.Expr) and isinstance(st.value, ast.Call) and isinstance(st.value.func, ast.Attribute) \
+                    and st.value.func.attr == "trash_event" and len(st.value.args) == 1 and norm(st.value.args[0]) == var
+
+            def outcomes(stmts: List[ast.stmt], done: bool) -> Set[str]:
+                """how the block can end: 'fall+' / 'fall-' (falls through, trashed / not yet), 'exit+' / 'exit-' (continue, break, return)"""
+                states = {done}
+                out: Set[str] = set()
+                for st in stmts:
+                    nxt: Set[bool] = set()
+                    for d in states:
+                        if trashes(st):
+                            nxt.add(True)
+                        elif isinstance(st, (ast.Continue, ast.Break, ast.Return)):
+                            out.add("exit+" if d else "exit-")
+                        elif isinstance(st, ast.Raise):
+                            pass
+                        elif isinstance(st, ast.If):
+                            for branch in (st.body, st.orelse):
+                                for o in outcomes(branch, d):
+                                    if o.startswith("fall"):
+                                        nxt.add(o.endswith("+"))
+                                    else:
+                                        out.add(o)
+                        elif isinstance(st, (ast.For, ast.While, ast.Try, ast.With)):
+                            inner = [b for fld in ("body", "orelse", "finalbody") for b in (getattr(st, fld, None) or [])]
+                            d2 = d or any(trashes(x) for x in ast.walk(st) if isinstance(x, ast.stmt)) and not isinstance(st, (ast.For, ast.While))
+                            if any(isinstance(x, ast.Return) for b in inner for x in ast.walk(b)):
+                                out.add("exit+" if d else "exit-")
+                            nxt.add(d2)
+                        else:
+                            nxt.add(d)
+                    states = nxt
+                    if not states:
+                        break
+                for d in states:
+                    out.add("fall+" if d else "fall-")
+                return out
+            res = outcomes(body, False)
+            n += 1
+            bad = sorted(o for o in res if o.endswith("-"))
+            rep.ob(rule, not bad, Loc(cls.file, lp.lineno, f"{cls.name}.run"), f"trash loop over get_trashable_events: paths end {sorted(res)}",
+                   f"a path through the trash loop ends without `trash_event({var})` ({bad}): the scheduler keeps a candidate of a handler "
+                   f"that the activator already filed as not running")
+    return n
+
+
 def check_run_loops(prog: Program, rep: Report, rule_prefix: str) -> Dict[str, List[str]]:
     sequences: Dict[str, List[str]] = {}
     for cls in mediator_classes(prog):
@@ -131,6 +210,34 @@ def check_run_loops(prog: Program, rep: Report, rule_prefix: str) -> Dict[str, L
         rep.ob(f"{rule_prefix}-complete", not missing, Loc(cls.file, ref.fn.lineno, f"{cls.name}.run"),
                f"{cls.name}.run uses every component API", f"run loop never calls {missing}")
         sequences[cls.name] = client.sequence
+        # the scheduler is asked for the succeeding event once per leg, after all candidates of the leg were pushed: the question is
+        # not a pure peek (the scheduler records what it handed out and lazily deletes trashed entries), and an answer obtained
+        # while candidates are still arriving is not the minimum of the leg
+        sites: List[Tuple[int, ast.Call, str]] = []
+
+        def scan(fn_: ast.AST, depth: int, seen: Tuple[str, ...], qual: str) -> None:
+            def visit(n: ast.AST, d: int) -> None:
+                for c in ast.iter_child_nodes(n):
+                    if isinstance(c, (ast.FunctionDef, ast.Lambda)):
+                        continue
+                    d2 = d + 1 if isinstance(c, (ast.For, ast.While, ast.ListComp, ast.GeneratorExp, ast.SetComp, ast.DictComp)) else d
+                    if isinstance(c, ast.Call) and isinstance(c.func, ast.Attribute):
+                        if c.func.attr == "get_succeeding_event" and not (isinstance(c.func.value, ast.Name) and c.func.value.id == "self"):
+                            sites.append((d, c, qual))
+                        elif isinstance(c.func.value, ast.Name) and c.func.value.id == "self" and c.func.attr not in seen:
+                            for impl in implementations(prog, cls, c.func.attr):
+                                scan(impl.fn, d, seen + (c.func.attr,), f"{cls.name}.{impl.fn.name}")
+                    visit(c, d2)
+            visit(fn_, depth)
+        scan(ref.fn, 0, ("run",), f"{cls.name}.run")
+        if sites:
+            depth_ok = all(d <= 1 for d, _, _ in sites)
+            rep.ob(f"{rule_prefix}-succeeding-event-once", len(sites) == 1 and depth_ok,
+                   Loc(cls.file, sites[0][1].lineno if len(sites) == 1 else sites[-1][1].lineno, sites[-1][2]),
+                   f"{len(sites)} call site(s) of get_succeeding_event, loop depth {[d for d, _, _ in sites]}",
+                   "the scheduler must be asked for the succeeding event exactly once per iteration of the run loop (not inside an inner loop "
+                   "over arriving candidates): the call records the returned time and deletes trashed entries, it is not a pure peek")
+    check_trash_loops(prog, rep, f"{rule_prefix}-trash-loop-trashes-every-handler")
     return sequences
 
 
